@@ -115,7 +115,7 @@ func optionClasses(c *Case, o *Outcome) {
 }
 
 func hasLongEdge(c *Case, l graph.Layout) bool {
-	if c.LayerSpacing() <= 0 || c.Virt {
+	if !bandsUsable(c) {
 		return false
 	}
 	v := NewView(c, l)
